@@ -428,9 +428,103 @@ def _fl(v):
         return float(s)
 
 
+def _replay_kernel(art):
+    """concrete float replays of the lookup / DAQmx-scaler / table-in-a-graph obligations on the plain package"""
+    import numpy as np
+    import nptdms.scaling as sc
+    task, inp = art['task'], art['inputs']
+    kind = task['kind']
+
+    def close(a, b):
+        return abs(a - b) <= 1e-9 * max(1.0, abs(a), abs(b))
+
+    class R:
+        def __init__(self, data, scaler_data=None):
+            self.data, self.scaler_data = data, scaler_data or {}
+    try:
+        if kind == 'lookup':
+            x = _fl(inp.get('x', 1))
+            levels, slopes = [], []
+            for lvl in ('channel', 'group', 'root'):
+                k = int(inp.get('kind_' + lvl, 0))
+                a = _fl(inp.get('slope_' + lvl, 0))
+                p = {}
+                if k in (1, 2):
+                    p = {'NI_Scale[0]_Scale_Type': 'Linear', 'NI_Scale[0]_Linear_Slope': a, 'NI_Scale[0]_Linear_Y_Intercept': 0.0,
+                         'NI_Scale[0]_Linear_Input_Source': RAW}
+                    if int(inp.get('decl_' + lvl, 0)):
+                        p['NI_Number_Of_Scales'] = 1
+                    if k == 2:
+                        p['NI_Scaling_Status'] = 'scaled'
+                elif k == 3:
+                    p = {'NI_Number_Of_Scales': 0}
+                levels.append(p)
+                slopes.append((k, a))
+            scaling = sc.get_scaling(*levels)
+            expected = next((a for k, a in slopes if k == 1), None)
+            if expected is None:
+                if scaling is not None:
+                    return dict(sig=signature(dict(task=task, what='scaling-found-but-none-in-scope')), kinds=[k for k, _ in slopes])
+                return None
+            if scaling is None:
+                return dict(sig=signature(dict(task=task, what='scaling-not-found')), kinds=[k for k, _ in slopes])
+            got = float(scaling.scale(R(np.array([x])))[0])
+            if not close(got, expected * x):
+                return dict(sig=signature(dict(task=task, what='lookup-order')), got=got, expected=expected * x, kinds=[k for k, _ in slopes])
+            return None
+        if kind == 'daqmx':
+            a0, a1, sl, b = (_fl(inp.get(n, d)) for n, d in (('a0', 1), ('a1', 2), ('slope', 1), ('icpt', 0)))
+            which = int(inp.get('final', 0))
+            props = {'NI_Number_Of_Scales': 3}
+            if which == 0:
+                src = int(inp.get('src', 0))
+                props.update({'NI_Scale[2]_Scale_Type': 'Linear', 'NI_Scale[2]_Linear_Slope': sl, 'NI_Scale[2]_Linear_Y_Intercept': b,
+                              'NI_Scale[2]_Linear_Input_Source': src})
+                exp = (a0 if src == 0 else a1) * sl + b
+            elif which == 1:
+                props.update({'NI_Scale[2]_Scale_Type': 'Add', 'NI_Scale[2]_Add_Left_Operand_Input_Source': 0,
+                              'NI_Scale[2]_Add_Right_Operand_Input_Source': 1})
+                exp = a0 + a1
+            else:
+                props.update({'NI_Scale[2]_Scale_Type': 'Subtract', 'NI_Scale[2]_Subtract_Left_Operand_Input_Source': 0,
+                              'NI_Scale[2]_Subtract_Right_Operand_Input_Source': 1})
+                exp = a1 - a0
+            got = float(sc.get_scaling(props, {}, {}).scale(R(None, {0: np.array([a0]), 1: np.array([a1])}))[0])
+            if not close(got, exp):
+                return dict(sig=signature(dict(task=task, what='daqmx-scaler')), got=got, expected=exp, final=which)
+            return None
+        if kind == 'table':
+            x, sl, b = _fl(inp.get('x', 0)), _fl(inp.get('slope', 1)), _fl(inp.get('icpt', 0))
+            props = {'NI_Number_Of_Scales': 2, 'NI_Scale[0]_Scale_Type': 'Linear', 'NI_Scale[0]_Linear_Slope': sl,
+                     'NI_Scale[0]_Linear_Y_Intercept': b, 'NI_Scale[0]_Linear_Input_Source': RAW,
+                     'NI_Scale[1]_Scale_Type': 'Table', 'NI_Scale[1]_Table_Input_Source': 0,
+                     'NI_Scale[1]_Table_Pre_Scaled_Values_Size': 3, 'NI_Scale[1]_Table_Scaled_Values_Size': 3}
+            scaled, pre = [1.0, 2.0, 4.0], [5.0, -1.0, 3.0]
+            for i in range(3):
+                props['NI_Scale[1]_Table_Pre_Scaled_Values[%d]' % i] = pre[i]
+                props['NI_Scale[1]_Table_Scaled_Values[%d]' % i] = scaled[i]
+            got = float(sc.get_scaling(props, {}, {}).scale(R(np.array([x])))[0])
+            v = x * sl + b
+            if v <= scaled[0]:
+                exp = pre[0]
+            elif v >= scaled[-1]:
+                exp = pre[-1]
+            else:
+                j = max(i for i in range(2) if scaled[i] <= v)
+                exp = pre[j] + (v - scaled[j]) * (pre[j + 1] - pre[j]) / (scaled[j + 1] - scaled[j])
+            if not close(got, exp):
+                return dict(sig=signature(dict(task=task, what='table-graph')), got=got, expected=exp, x=x, slope=sl, icpt=b)
+            return None
+    except Exception as e:
+        return dict(sig=signature(dict(task=task, what=art.get('what'))), exception=repr(e)[:200], inputs=inp)
+    return None
+
+
 def _replay_graph(art):
     import nptdms.scaling as sc
     task, inp = art['task'], art['inputs']
+    if task['kind'] in ('lookup', 'daqmx', 'table'):
+        return _replay_kernel(art)
     if task['kind'] != 'graph':
         return dict(sig=signature(dict(task=task, what=art.get('what'))), note='symbolic-only obligation', inputs=inp)
     types = task['types']
